@@ -35,6 +35,25 @@ pub fn canonical_items(tokens: &str) -> Vec<String> {
     out
 }
 
+fn group_field_types(ast: &mut syn::DeriveInput) {
+    fn wrap(fields: &mut syn::Fields) {
+        for f in fields.iter_mut() {
+            let ty = f.ty.clone();
+            f.ty = syn::Type::Group(syn::TypeGroup { group_token: Default::default(), elem: Box::new(ty) });
+        }
+    }
+    match &mut ast.data {
+        syn::Data::Struct(s) => wrap(&mut s.fields),
+        syn::Data::Enum(e) => e.variants.iter_mut().for_each(|v| wrap(&mut v.fields)),
+        syn::Data::Union(u) => {
+            for f in u.fields.named.iter_mut() {
+                let ty = f.ty.clone();
+                f.ty = syn::Type::Group(syn::TypeGroup { group_token: Default::default(), elem: Box::new(ty) });
+            }
+        }
+    }
+}
+
 pub fn main(args: &[String]) -> i32 {
     let serial = args.iter().any(|a| a == "--serial");
     let stdin = std::io::stdin();
@@ -51,7 +70,20 @@ pub fn main(args: &[String]) -> i32 {
             return serde_json::json!({"id": id, "k": "badreq", "msg": format!("unknown derive {dname}")}).to_string();
         };
         let t0 = std::time::Instant::now();
-        let o = expand_str(d, item);
+        let o = if v.get("group").and_then(|c| c.as_bool()).unwrap_or(false) {
+            // every field type wrapped in a None-delimited group, which is what a derive receives for `$t:ty` fragments of a
+            // `macro_rules!`-generated item (`syn::Type::Group`); text alone can never produce this shape
+            match std::panic::catch_unwind(|| syn::parse_str::<syn::DeriveInput>(item)) {
+                Ok(Ok(mut ast)) => {
+                    group_field_types(&mut ast);
+                    expand_ast(d, &ast)
+                }
+                Ok(Err(e)) => Outcome::ParseFail(e.to_string()),
+                Err(_) => Outcome::ParseFail("panic while parsing item".into()),
+            }
+        } else {
+            expand_str(d, item)
+        };
         let mut j = outcome_json(&id, &o, t0.elapsed().as_micros());
         if v.get("where").and_then(|c| c.as_bool()).unwrap_or(false) {
             // only the where-predicates of the first impl (C04 compares nothing else): saves shipping and re-parsing the text
